@@ -70,6 +70,12 @@ def check_views(L, w, acc_shape=None, fill='garbage', seed=0, weight=1.0):
             cover[win[0]] += 1
     out['nfields'] = len(fields)
     out['overlap'] = bool(np.any(cover > 1))
+    # two fields with disjoint windows both overlapped by a later third (state measure / must-hit probe)
+    boxes = [dense.field_window(d.shape, o, shape) for d, o in fields]
+    def _ov(a, b):
+        return a is not None and b is not None and all(a[0][ax].start < b[0][ax].stop and b[0][ax].start < a[0][ax].stop for ax in (0, 1))
+    out['bridged'] = any(not _ov(boxes[i], boxes[j]) and any(_ov(boxes[i], boxes[l]) and _ov(boxes[j], boxes[l]) for l in range(j + 1, len(boxes)))
+                         for i in range(len(boxes)) for j in range(i + 1, len(boxes)))
     # accumulate into a caller buffer of arbitrary shape and prior content
     acc_shape = tuple(acc_shape) if acc_shape is not None else shape
     acc = np.zeros(acc_shape)
@@ -433,6 +439,8 @@ class ViewsHooks(Hooks):
             it.probe('nfields:%s' % ('1' if v['nfields'] == 1 else ('2' if v['nfields'] == 2 else '3+')))
             if v['nfields'] >= 3 and v['overlap']:
                 it.probe('three_fields_overlap')
+            if v.get('bridged'):
+                it.probe('disjoint_pair_bridged')
             for cl in v['clipped']:
                 it.probe('clip:' + cl)
             if tag.get('dirty'):
@@ -453,6 +461,8 @@ class ViewsHooks(Hooks):
                 it.probe('scalar_plane')
             if tag.get('two_segmented'):
                 it.probe('two_segmented_planes')
+            if tag.get('caller_write'):
+                it.probe('phasor_after_caller_write')
             if not out.value['ok']:
                 it.violate('C07.phasor', {'what': 'pointwise-phasor', 'nplanes': min(tag.get('nplanes', 1), 3)}, out.value['detail'], i)
         elif fn == 'check.phasor' and not out.ok:
@@ -493,7 +503,8 @@ class ViewsScenario(OpticsBase):
                    'segment masks are disjoint (Voronoi partitions), as the documentation requires',
                    'NaN/inf accumulators are replaced by loud finite garbage: before + w*intensity is NaN by arithmetic there']
     must_hit = ['three_fields_overlap', 'clip:lo0', 'clip:hi0', 'clip:lo1', 'clip:hi1', 'clip:outside', 'scalar_plane',
-                'two_segmented_planes', 'px_conflict', 'default_plane', 'nfields:1', 'nfields:3+']
+                'two_segmented_planes', 'px_conflict', 'default_plane', 'nfields:1', 'nfields:3+', 'disjoint_pair_bridged',
+                'phasor_after_caller_write']
     probe_names = must_hit + ['coldwarm_audit']
 
     def program(self, rng, world, force=None):
@@ -538,27 +549,46 @@ class ViewsScenario(OpticsBase):
         # ---- pupil planes
         npup = force.get('npup') or rng.choice([1, 1, 2, 3])
         for j in range(npup):
+            opd_ref = None
             sname = 'S' if j == 0 or rng.random() < 0.6 else 'S2'
             if rng.random() < 0.15 and j > 0:
                 p = b.E('Pupil', None, {'amplitude': rng.choice([0.7, 1.0]), 'opd': rng.choice([0.0, 2.1e-7]), 'focal_length': ph['f']}, tag='p')
                 flags['scalar'] = True
             else:
                 amp, opd, m, k = pupil_arrays(b, sname, world['shapes'][sname], seg=force.get('seg'))
+                spread = k > 1 and (rng.random() < 0.6 or force.get('spread'))
+                if spread:
+                    # a different tilt per segment, a few output samples apart, fitted out below: windows of the propagated
+                    # fields then sit at different places (some disjoint, some overlapping)
+                    unit = ph['du0'] / ph['f']
+                    tl_ = [[rng.uniform(-5, 5) * unit, rng.uniform(-5, 5) * unit] for _ in range(k)]
+                    rs_ = b.E('h.segment_ramp', ['@' + m, tl_, ph['dx']], tag='rs')
+                    opd = b.E('np.add', ['@' + opd, '@' + rs_], tag='o')
                 kw = {'amplitude': '@' + amp, 'opd': '@' + opd, 'pixelscale': ph['dx'], 'focal_length': ph['f'] * (1 if j == 0 else rng.choice([1, 1.5]))}
                 if rng.random() < 0.85 or k > 1:
                     kw['mask'] = '@' + m
                 if rng.random() < 0.1:
                     kw['opd'] = rng.choice([0.0, 1e-7])
                 p = b.E('Pupil', None, kw, tag='p')
+                opd_ref = kw['opd'] if isinstance(kw['opd'], str) else None
                 if k > 1:
                     flags['nseg'] += 1
-                if rng.random() < 0.25:
+                if rng.random() < 0.25 or spread:
                     p = b.E('Plane.fit_tilt', ['@' + p], tag='p')
+                    opd_ref = None      # the fitted copy no longer views the caller's array
+                    flags['spread'] = flags.get('spread') or spread
             planes.append(p)
+            w_before = w
             w = mul(p, w)
             b.E('check.phasor', ['@' + w, ['@' + x for x in planes], ph['wl']],
                 t={'nplanes': len(planes), 'scalar_plane': flags['scalar'], 'two_segmented': flags['nseg'] >= 2}, tag='c')
             views(w)
+            if opd_ref is not None and (rng.random() < 0.25 or force.get('caller_write')):
+                # the caller edits its own OPD array in place (the plane holds a view of it) and sends the wavefront through again
+                b.events.append({'env': 'perturb', 'target': opd_ref, 'scale': 2e-8, 'seed': b.sd()})
+                w = mul(p, w_before, caller_write=True)
+                b.E('check.phasor', ['@' + w, ['@' + x for x in planes], ph['wl']],
+                    t={'nplanes': len(planes), 'caller_write': True}, tag='c')
             if rng.random() < 0.3:
                 tl = b.E('Tilt', None, {'x': rng.uniform(-4, 4) * 1e-6, 'y': rng.uniform(-4, 4) * 1e-6}, tag='t')
                 w2 = mul(tl, w)
@@ -574,7 +604,11 @@ class ViewsScenario(OpticsBase):
             n = [rng.randint(3, 12), rng.randint(3, 12)]
             du = ph['du0'] if rng.random() < 0.7 else [ph['du0'], ph['du0'] * rng.choice([0.8, 1.6])]
             k = {'pixelscale': du, 'shape': n, 'oversample': os_}
-            if rng.random() < 0.4:
+            if flags.get('spread') and rng.random() < 0.8:
+                n = [rng.randint(10, 16), rng.randint(10, 16)]
+                k['shape'] = n
+                k['prop_shape'] = [rng.randint(2, 5), rng.randint(2, 5)]
+            elif rng.random() < 0.4:
                 k['prop_shape'] = [rng.randint(1, n[0]), rng.randint(1, n[1])]
             elif rng.random() < 0.25:
                 om = b.A({'kind': rng.choice(['disk', 'rect', 'blob']), 'shape': [n[0] * os_, n[1] * os_], 'radius': min(n) * os_ / 3.0,
@@ -604,7 +638,7 @@ class ViewsScenario(OpticsBase):
             out.append(e)
             if rng.random() < 0.03:
                 out.append(rng.choice([{'env': 'cache_clear'}, {'env': 'cache', 'maxsize': rng.choice([0, 1, 2])}]))
-            if e['fn'] == 'check.views' and rng.random() < 0.1:
+            if e.get('fn') == 'check.views' and rng.random() < 0.1:
                 d = copy.deepcopy(e)            # F6: read the views again, into a fresh dirty accumulator
                 d['id'] = e['id'] + 'd'
                 d['k']['seed'] = e['k']['seed'] + 1
@@ -614,16 +648,16 @@ class ViewsScenario(OpticsBase):
     def prelude(self, verif_seed):
         import random
         runs = []
-        cases = [{'S': [7, 8], 'npup': 2, 'seg': True, 'propagate': True, 'acc': 'offside', 'default': True},
+        cases = [{'S': [7, 8], 'npup': 2, 'seg': True, 'propagate': True, 'acc': 'offside', 'default': True, 'spread': True},
                  {'S': [6, 6], 'npup': 3, 'seg': True, 'propagate': True, 'acc': 'tiny', 'default': True},
                  {'S': [9, 5], 'npup': 2, 'seg': True, 'propagate': True, 'acc': 'smaller', 'default': True},
-                 {'S': [5, 9], 'npup': 1, 'seg': False, 'propagate': True, 'acc': 'larger', 'default': True}]
+                 {'S': [5, 9], 'npup': 1, 'seg': False, 'propagate': True, 'acc': 'larger', 'default': True, 'caller_write': True}]
         for j, force in enumerate(cases * 3):
             rng = random.Random(verif_seed * 67867967 + j)
             world = {'shapes': {}, 'cache': 32, 'rng_seed': 1, 'phys': self.phys(rng), 'K': 1}
             events = self.program(rng, world, force=force)
             # make sure an accumulator misses the wavefront entirely and one clips on every side
-            wids = [e['id'] for e in events if e['fn'] == 'propagate_dft']
+            wids = [e['id'] for e in events if e.get('fn') == 'propagate_dft']
             for wid in wids[:1]:
                 events.append({'c': 0, 'fn': 'check.views', 'a': ['@' + wid], 'id': 'pv%d' % j,
                                'k': {'fill': 'garbage', 'seed': j, 'weight': 2.0, 'acc_shape': [2, 2]}, 't': {'dirty': True, 'weight': 2.0}})
@@ -739,7 +773,7 @@ class TiltScenario(OpticsBase):
                    'segments have >= 3 non-collinear pixels so the least-squares tilt is unique']
     must_hit = ['subpixel_only', 'beyond_output', 'nonsquare_pixel', 'per_segment_tilt', 'three_elements', 'carrier:tilt-planes',
                 'carrier:wavefront-tilt', 'carrier:fit', 'carrier:refit', 'carrier:dispersive', 'carrier:wavefront-tilt+fit',
-                'carrier:tilt-planes-before-pupil', 'trace_order:1/1']
+                'carrier:tilt-planes-before-pupil', 'carrier:fan-out', 'trace_order:1/1']
     probe_names = must_hit + ['coldwarm_audit', 'no_common_samples', 'trace_order:2/1', 'trace_order:1/2']
 
     def program(self, rng, world, force=None):
@@ -856,6 +890,29 @@ class TiltScenario(OpticsBase):
             b.E('check.equiv', ['@' + itq, '@' + ie, '@' + wtq_pre, '@' + we_pre], t=dict(base_t, carrier='tilt-planes-before-pupil', permuted=True), tag='c')
             b.E('check.shift', ['@' + wcur, [['tilt', t[0], t[1]] for t in parts], z, du, os_],
                 t={'n_elements': nel, 'square': square, 'kinds': 'tilt'}, tag='c')
+        # ---- fan-out (history): ONE tilt-carrying wavefront is kept by the caller and sent through different Tilt planes;
+        #      each branch must image like its own eager twin, whatever was multiplied before
+        if rng.random() < 0.5 or force:
+            src = rng.choice(['wavefront', 'fit'])
+            if src == 'wavefront':
+                w_keep = b.E('Wavefront', [ph['wl']], {'tilt': [gx, gy]}, tag='w')
+                wk = b.E('Plane.multiply', ['@' + pb, '@' + w_keep], t={'expect': 'ok'}, tag='w')
+                base_ramp = o_all
+            else:
+                pfk = b.E('Pupil', None, dict(pkw, opd='@' + o_all, mask='@' + m), tag='p')
+                qk = b.E('Plane.fit_tilt', ['@' + pfk], tag='q')
+                wk = b.E('Plane.multiply', ['@' + qk, '@' + W0], t={'expect': 'ok'}, tag='w')
+                base_ramp = o_all
+            for j in range(rng.randint(2, 3)):
+                ax, ay = angle(dur) * 0.5, angle(duc) * 0.5
+                tj = b.E('Tilt', None, {'x': ax, 'y': ay}, tag='t')
+                wj = b.E('Plane.multiply', ['@' + tj, '@' + wk], t={'expect': 'ok'}, tag='w')
+                ij = b.E('propagate_dft', ['@' + wj], dict(pk), t={'expect': 'ok'}, tag='w')
+                rj = b.E('h.segment_ramp', ['@' + gm, [[ax, ay]], dx], tag='rj')
+                oj = b.E('np.add', ['@' + base_ramp, '@' + rj], tag='o')
+                pj = b.E('Pupil', None, dict(pkw, opd='@' + oj, mask='@' + gm), tag='p')
+                wej, iej = image(pj)
+                b.E('check.equiv', ['@' + ij, '@' + iej, '@' + wj, '@' + wej], t=dict(base_t, carrier='fan-out'), tag='c')
         # ---- carrier: fit, update the OPD, fit again (history)
         if rng.random() < 0.5 or force:
             oc = b.E('np.copy', ['@' + o_rs], tag='o')
